@@ -49,7 +49,8 @@ def relabellings(ci, seed):
             'canonical_uint8': canon.astype(np.uint8), 'canonical_int32': canon.astype(np.int32),
             'plus1000': ci + 1000, 'times7': ci * 7, 'reversed': (u.max() + u.min()) - ci,
             'random_injective': np.array([rnd[c] for c in ci.tolist()]), 'zero_based': ci - ci.min(),
-            'shuffled': np.array([shuf[c] for c in ci.tolist()])}
+            'shuffled': np.array([shuf[c] for c in ci.tolist()]),
+            'all_negative': -ci.astype(np.int64) - 3, 'mixed_sign': ci.astype(np.int64) - int(np.median(u)) - 1}
 
 
 def nets(n, seed, kinds):
@@ -90,6 +91,10 @@ def cases(tier, seed):
         n = int(rs.randint(6, 40))
         big = t % 3 == 0  # many communities: label values beyond any small constant
         out.append({'kind': 'pd_random', 'n': n, 'ka': int(rs.randint(1, n if big else 6)), 'kb': int(rs.randint(1, n if big else 6)), 'rs': int(rs.randint(1 << 30))})
+    # partitions of more than a thousand nodes that agree at both ends and differ in the middle (anything keyed by a
+    # printed / truncated / sampled form of a label vector confuses them)
+    for t in range(12 if thorough else 4):
+        out.append({'kind': 'pd_long', 'n': int(rs.choice([1200, 2500, 5000])), 'k': int(rs.randint(2, 9)), 'rs': int(rs.randint(1 << 30))})
     for t in range(60 if thorough else 20):
         out.append({'kind': 'agreement', 'n': int(rs.randint(3, 12)), 'm': int(rs.randint(1, 6)), 'rs': int(rs.randint(1 << 30))})
     for pi, p in enumerate(parts[:: 1 if thorough else 3]):
@@ -148,8 +153,17 @@ def run(case, bct, REC):
                         if k >= 2 and rname in ('reversed', 'random_injective', 'shuffled'):
                             REC.note_nontrivial(PROP, fname, X, ci, rname, vi)
         REC.sample(PROP, {'kind': kind, 'ci': ci, 'relabellings': {a: b for a, b in rel.items()}}, cap=3)
-    elif kind in ('pd', 'pd_random'):
-        if kind == 'pd':
+    elif kind in ('pd', 'pd_random', 'pd_long'):
+        if kind == 'pd_long':
+            rs = np.random.RandomState(case['rs'])
+            a = rs.randint(1, case['k'] + 1, size=case['n'])
+            b = a.copy()
+            mid = slice(10, case['n'] - 10)
+            b[mid] = rs.permutation(b[mid])            # same ends, same label counts, another partition
+            c = a.copy()
+            c[mid] = rs.randint(1, case['k'] + 3, size=case['n'] - 20)
+            others = [b, c, a.copy(), relabellings(a, 1)['reversed'], b]
+        elif kind == 'pd':
             a = np.array(case['a'])
             others = [np.array(p) for p in G.set_partitions(len(a))]
         else:
@@ -178,7 +192,7 @@ def run(case, bct, REC):
                       ('single_community_both',) if len(np.unique(a)) == 1 and len(np.unique(b)) == 1 else ())
             REC.check(PROP, 'partition_distance', 'vin_in_unit_interval', bool(-1e-12 <= v <= 1 + 1e-12), det)
             rel = relabellings(b, case['rs'] + bi)
-            for rname in ('reversed', 'random_injective', 'zero_based', 'huge_offset', 'canonical_float'):
+            for rname in ('reversed', 'random_injective', 'zero_based', 'huge_offset', 'canonical_float', 'all_negative', 'mixed_sign'):
                 try:
                     v3, m3 = bct.partition_distance(a.copy(), rel[rname].copy())
                     v4, m4 = bct.partition_distance(rel[rname].copy(), a.copy())
@@ -204,6 +218,12 @@ def run(case, bct, REC):
         for bs in (1, 2):
             if m > bs:
                 pair(REC, 'agreement', 'buffer_invariant', lambda: bct.agreement(C.copy()), lambda: bct.agreement(C.copy(), buffsz=bs), {'ci': C, 'buffsz': bs})
+                # the option crossed with the renaming: the chunked branch sees other label values too
+                for rname in ('all_negative', 'mixed_sign', 'zero_based', 'random_injective'):
+                    C2 = C.copy()
+                    C2[:, col] = relabellings(C[:, col], case['rs'])[rname]
+                    pair(REC, 'agreement', 'label_invariant', lambda: bct.agreement(C.copy()), lambda: bct.agreement(C2.copy(), buffsz=bs),
+                         {'ci': C, 'relabelled_column': col, 'relabelling': rname, 'buffsz': bs}, ('buffsz<partitions',))
         REC.note_nontrivial(PROP, 'agreement', C)
     else:
         ci = np.array(case['ci'])
